@@ -10,8 +10,10 @@ CONSTANTS
  DevNoExpiry = FALSE
  DevLogoutKeeps = FALSE
  DevLimiterPerWindowStart = FALSE
+ DevAnyCookieValid = FALSE
+ PairJars = FALSE
 INIT Init
 NEXT Next
-INVARIANTS C38_SessionRequired C38_RateLimit LiveIsServed HitsBounded
+INVARIANTS C38_SessionRequired C38_RateLimit SessionsAreIssued HitsBounded
 VIEW View
 CHECK_DEADLOCK FALSE
